@@ -359,3 +359,87 @@ def gen_of(names, arg_ok=None):
             return False
         return True if arg_ok is None else arg_ok(it, env, r, g)
     return ok
+
+
+def row_transducer(vc, relpath, qualpath, dotted, attr_path, spec_src, spec_fn, mk_args, loop_label, min_paths=3,
+                   identity=None, spec_free=None, get_fn=None, tag='', inline=None, loops=None, rows_arg=None):
+    """proof that a real generator refines a stateless row transducer:
+         for row in rows: ... yield ...      ==   flat-map(step)   (per arbitrary row; snoc law)
+    mk_args(it, rows) -> (args for the real function, extra args for the spec step after `row`).
+    identity: True  -> every yielded row must be the input row object (in-place processors)
+              False -> no yielded row may be the input row object (fresh dicts)
+              None  -> not checked.
+    Also: nothing yielded before/after the loop, input drained, no buffering (no Drain of the input)."""
+    from pyvc.api import SpecModule, real_function, LoopSpec, check, cover, yields_match, yields_of, row_stream
+    fk = vc.under_contract(relpath, qualpath)
+    spec = SpecModule(spec_src)
+
+    def thunk(it):
+        f = get_fn(it) if get_fn else real_function(it, dotted, *attr_path)
+        rows = row_stream(it, 'rows') if rows_arg is None else rows_arg(it)
+        stream = rows if not hasattr(rows, 'stream') else rows.stream
+        args, extra = mk_args(it, rows)
+        sp = spec.bind(it, **(spec_free(it) if spec_free else {}))
+
+        def at_start(it, env, elem):
+            it.path.info['in_iter'] = True
+            g = ghost_row(elem.snapshot(), elem)
+            exp = run_spec(it, sp.attrs[spec_fn], [g] + list(extra))
+            if exp.exc is not None:
+                it.path.info['expect_exc'] = exp.exc.cls
+            return exp, elem
+
+        def at_end(it, env, cap, events):
+            exp, elem = cap
+            if exp.exc is not None:
+                return
+            check(it, 'step%s' % tag, yields_match(it, events, exp.value))
+            ys = yields_of(events)
+            if identity is True:
+                check(it, 'yields-the-input-row-object%s' % tag, all(y.obj is elem for y in ys))
+            elif identity is False:
+                check(it, 'yields-fresh-objects%s' % tag, all(y.obj is not elem for y in ys))
+            check(it, 'no-buffering%s' % tag, not [e for e in events if e.kind == 'Drain'])
+            cover(it, 'iter-reachable%s' % tag)
+        it.loops[loop_label] = LoopSpec(at_start=at_start, at_end=at_end,
+                                        at_exit=lambda it, env: it.path.info.__setitem__('exit_mark', len(it.path.events)))
+        for k, v in (loops or {}).items():
+            it.loops[k] = v
+        it.run_generator(it.call(f, args))
+        evs = it.path.events
+        n0 = it.path.info.get('exit_mark', 0)
+        pulls = [i for i, e in enumerate(evs) if e.kind == 'Pull']
+        pre = evs[:pulls[0]] if pulls else evs[:n0]
+        check(it, 'pre-silent%s' % tag, not yields_of(pre))
+        check(it, 'post-silent%s' % tag, not yields_of(evs[n0:]) if not pulls else True)
+        check(it, 'drains%s' % tag, stream.drained is True)
+        check(it, 'no-buffering-outside%s' % tag, not [e for e in evs if e.kind == 'Drain'])
+    paths = vc.explore(fk, thunk, min_paths=min_paths, inline=inline)
+    expect_no_raise_or_same(vc, fk, paths)
+    return fk
+
+
+def search_loop(any_term, cond_of, tag, state_unchanged=None, inv=None, keep=()):
+    """LoopSpec for a search loop  `for x in xs: if c(x): <record>; break`  (pyvc proof rule, sound by induction):
+       checked : a non-breaking iteration has not c(x) and leaves the state unchanged; a breaking one has c(x)
+       assumed : after a break  ANY(xs, c)  holds;  after exhaustion  not ANY(xs, c)  holds.
+    any_term(it, env) -> z3 Bool for any(c(x) for x in xs) (built by evaluating that expression);
+    cond_of(it, env, x) -> z3 Bool c(x)."""
+    import z3
+    from pyvc.api import LoopSpec, check
+
+    def at_start(it, env, x):
+        return x
+
+    def at_end(it, env, x, events):
+        check(it, 'search-nonbreak-has-no-match[%s]' % tag, z3.Not(cond_of(it, env, x)))
+        if state_unchanged is not None:
+            check(it, 'search-nonbreak-keeps-state[%s]' % tag, state_unchanged(it, env, events))
+
+    def at_break(it, env, x, events):
+        check(it, 'search-break-only-on-match[%s]' % tag, cond_of(it, env, x))
+        it.assume(any_term(it, env))
+
+    def at_exit(it, env):
+        it.assume(z3.Not(any_term(it, env)))
+    return LoopSpec(at_start=at_start, at_end=at_end, at_break=at_break, at_exit=at_exit, inv=inv, keep=keep)
